@@ -1323,4 +1323,32 @@ theorem getRowsLoop_inv (iters : List Bool) : ∀ (len : Nat) (cur maxVal : Int)
       obtain ⟨l, m, e, a, c, d⟩ := ih len (cur + 1) maxVal h1 h2 (by omega)
       exact ⟨l, m, e, a, c, by simp only [List.length_cons]; omega⟩
 
+/-! ## streaming row iterator: per-step facts -/
+
+theorem nextScan_spec (cur seek : Int) (toks : List Tok) :
+    (nextScan cur seek toks).2.2.seek = seek ∧
+    (nextScan cur seek toks).2.2.toks.length ≤ toks.length ∧
+    ((nextScan cur seek toks).1 = true → (nextScan cur seek toks).2.2.toks.length < toks.length) ∧
+    ((nextScan cur seek toks).2.2.cur ≤ cur + 1 ∨ (nextScan cur seek toks).2.2.cur ≤ (Facts.TotalRows : Int)) := by
+  induction toks with
+  | nil => unfold nextScan; refine ⟨by simp, by simp, by simp, Or.inl (by dsimp only; omega)⟩
+  | cons t rest ih =>
+    cases t with
+    | row r =>
+      unfold nextScan
+      split
+      · split
+        · refine ⟨by simp, by simp, by simp, Or.inl (by dsimp only; omega)⟩
+        · refine ⟨by simp, by simp, by simp, Or.inr (by dsimp only; omega)⟩
+      · refine ⟨by simp, by simp, by simp, Or.inl (by dsimp only; omega)⟩
+    | cell c b v =>
+      unfold nextScan
+      obtain ⟨a, b', c', d⟩ := ih
+      exact ⟨a, by simp only [List.length_cons]; omega, fun h => by have := c' h; simp only [List.length_cons]; omega, d⟩
+    | endData => unfold nextScan; refine ⟨by simp, by simp, by simp, Or.inl (by dsimp only; omega)⟩
+    | other =>
+      unfold nextScan
+      obtain ⟨a, b', c', d⟩ := ih
+      exact ⟨a, by simp only [List.length_cons]; omega, fun h => by have := c' h; simp only [List.length_cons]; omega, d⟩
+
 end XlModel.Decode
